@@ -206,7 +206,7 @@ def run_property(pid, tier, seed, only=None):
     for r in shown:
         if id(r) not in seen_ids: seen_ids.add(id(r)); ordered.append(r)
     for r in ordered:
-        samples.append({k: r.get(k) for k in ('fn', 'kind', 'profile', 'slice', 'verdict', 'reason', 'abstractions', 'vacuity_witness', 'symex_s', 'solver_s',
+        samples.append({k: r.get(k) for k in ('fn', 'ob_note', 'kind', 'profile', 'slice', 'verdict', 'reason', 'abstractions', 'vacuity_witness', 'symex_s', 'solver_s',
                                               'panic_sites', 'side_constraints', 'unwound_states', 'queries', 'wall_s', 'model', 'native_replay', 'validation', 'sites') if r.get(k) is not None})
     ev = {
         'property_id': pid, 'tier': 'quick' if quick else 'thorough', 'seed': seed, 'level': 'model_checking',
@@ -232,7 +232,7 @@ def run_property(pid, tier, seed, only=None):
     json.dump(ev, open(os.path.join(VERIF, 'evidence', pid + '.json'), 'w'), indent=1, default=str)
     # ---- report
     for r in inconclusive:
-        print('INCONCLUSIVE property=%s fn=%s %s slice=%s: %s' % (pid, r['fn'], r['profile'], r.get('slice'), (r.get('reason') or '')[:400]))
+        print('INCONCLUSIVE property=%s fn=%s %s slice=%s%s: %s' % (pid, r['fn'], r['profile'], r.get('slice'), (' [%s]' % r['ob_note'][:160]) if r.get('ob_note') else '', (r.get('reason') or '')[:400]))
         if r.get('trace') and os.environ.get('VERIF_DEBUG'): print(r['trace'])
     rc = 0
     if violations:
